@@ -93,3 +93,23 @@ contract("C13.has_duplicates_keeps_no_state", file="hed/schema/hed_schema.py", f
          params={"self": "HedSchemaDup"}, returns="Opaque", enc="native", self_class="HedSchemaDup", unwind="havoc",
          ghost={"pure": True}, ensures={},
          assume=["the loop over the sections is explored as one arbitrary iteration (sound for the frame obligation)"])
+
+# C13 "an annotation whose tags all carry prefix p is judged exactly as the unprefixed annotation": the names a section advertises for an
+# attribute (unique / required tags ...) carry the prefix asked for NOW - the remembered part is the prefix-free entry list only
+from pyvc.contract import EXTERNS as _EX13
+class_model("EntryN", {"name": "Str", "attributes": "Map[Str,Str]"})
+class_model("SectionM", {"_attribute_cache": "Map[Str,List[EntryN]]"})
+try:
+    from contracts.extern_fs import _entry_has_attribute as _eha13, _ulist as _ul13
+    _EX13["EntryN.has_attribute"] = _eha13
+    _EX13["SectionM.values"] = lambda interp, args, kwargs: _ul13("section_entries_of", 1, "EntryN")(interp, [args[0]], {})
+    _EX13["section_entries_of"] = _ul13("section_entries_of", 1, "EntryN")
+except ImportError:
+    pass
+contract("C13.names_with_attribute_carry_the_prefix_asked_for", file="hed/schema/hed_schema_section.py",
+         func="HedSchemaSection.get_entries_with_attribute",
+         params={"self": "SectionM", "attribute_name": "Str", "return_name_only": "Bool", "schema_namespace": "Str"},
+         returns="List[Str]", enc="native", self_class="SectionM", modifies=["self._attribute_cache"],
+         requires=["return_name_only"],
+         ensures={"C13.names.every_name_starts_with_the_prefix_asked_for": "all(result[k].startswith(schema_namespace) for k in range(len(result)))"},
+         assume=["only the names form (return_name_only=True) is covered"])
